@@ -1291,6 +1291,8 @@ def check(ctx: Ctx) -> None:
 # ------------------------------------------------------------------------------ self-test corpus
 F = "pipefunc/cache.py"
 MUTANTS = [
+    Mutant("min-over-score-key-tuples", F, "        lowest_score_key = min(scores, key=lambda k: scores[k])\n", "        _, lowest_score_key = min((scores[k], k) for k in self._cache_dict)\n", ("C14.3-policy",), why="round-6 seed C14/17 (expected count zero: positive example)"),
+    Mutant("disk-get-reputs", F, "                self.lru_cache.put(key, value)\n", "                self.put(key, value)\n", ("C14.9-levels",), why="round-6 seed C14/18"),
     Mutant("expire-iterates-proxy-F35", F, "            for k in normalized_access_counts\n", "            for k in self._access_counts\n", ("C14.10-proxy-iteration",), why="original F35"),
     Mutant("str-iterates-proxy", F, '        access_counts_str = f"Access Counts: {self._access_counts}\\n"\n', '        access_counts_str = f"Access Counts: {sorted(self._access_counts)}\\n"\n', ("C14.10-proxy-iteration",)),
     Mutant("twin-expire-iterates-keys", F, "            for k in normalized_access_counts\n", "            for k in self._access_counts.keys()\n", twin=True),
